@@ -27,7 +27,7 @@ META = {
     'technique': 'Lean 4 theorems over a model of unexports2 symbol lookup (all tables, names, 64-bit biases, call histories) + differential run of the real package against the model on every symbol of test binaries built in several link modes and patched variants, with a runtime-table / &v oracle',
     'level': 'proof',
     'level_text': 'Partial: proved for every table, name, bias and call history that a lookup returns an address iff the table has an entry with exactly that name (first wins) and then its table address plus the slide recovered from the anchor, that absent names and every kind of unreadable table (no .gopclntab as in PIE, no .text, not ELF, bad pclntab; no ELF symbols for variables) give an error for every call, and that results do not depend on earlier calls — lookups, ExposeFunction and AllFunctions listings alike (history_independent, run_pointwise, all_functions_spec); histories in which the caller clears/filters/edits the listing it was handed are run against the real package. That the loader maps every other symbol with the same bias as the anchor is assumed, and checked on every symbol of the built binaries.',
-    'level_note': 'Trusted: Lean kernel (axioms propext, Classical.choice, Quot.sound at most); the linker/loader contract (one bias for all functions, one for all data symbols; pclntab entry = runtime.text-relative offset); debug/elf and debug/gosym parse the file as the check\'s own independent reader does (differentially checked on every run); the hand model Model/Sym.lean (differentially checked on every query). Not covered: darwin/windows readers (cannot run here), pclntab names that occur more than once (first wins; counted). Concurrent callers: proved for every schedule of whole calls (conc_any_schedule); that sync.Once makes a call atomic with respect to the alignment state is trusted and observed by the concurrent-first-use lane (goroutines released from a barrier in fresh processes of slid executables — a test, not a proof). Executable file deleted/replaced before first use: required behaviour (error) proved as exe_gone_is_error and observed in child processes; replacement by a DIFFERENT binary at the same path is not exercised.',
+    'level_note': 'Trusted: Lean kernel (axioms propext, Classical.choice, Quot.sound at most); the linker/loader contract (one bias for all functions, one for all data symbols; pclntab entry = runtime.text-relative offset); debug/elf and debug/gosym parse the file as the check\'s own independent reader does (differentially checked on every run); the hand model Model/Sym.lean (differentially checked on every query). Not covered: darwin/windows readers (cannot run here), pclntab names that occur more than once (first wins; counted). Concurrent callers: proved for every schedule of whole calls (conc_any_schedule); that sync.Once makes a call atomic with respect to the alignment state is trusted and observed by the concurrent-first-use lane (goroutines released from a barrier in fresh processes of slid executables — a test, not a proof). ELF symbol-table entries without an address (undefined, FILE, SECTION, TLS) are modelled as absent (non_address_symbol_is_error); HEAD answers (st_value+slide, nil) for them: known finding F27-c10-symkinds with a drafted fix. Executable file deleted before first use: required behaviour (error) proved as exe_gone_is_error and observed in child processes; file replaced by a DIFFERENT program: HEAD returns that program\'s addresses — known finding F28-c10-exe-replaced.',
 }
 
 PKG = 'github.com/tencent/goom/internal/unexports2'
